@@ -11,7 +11,7 @@ from vlib import Inconclusive
 
 META = {
     'technique': 'TLA+ Placement.tla (one unknown function part[n]: Key -> shard must explain every observation: OneShardPerKey, ShardIsFunctionOfKeyAndCountAlone, RepartitionPlacesWhereFunctionSays, EveryKeyExactlyOnce/EveryRowExactlyOnce) judges placements recorded from the real default partitioner on frame views (offsets, orders, chunkings, duplicates) and from WriterFuncs behind Reduce/Fold/Cogroup/Reshuffle/Reshard/Repartition in real local and bigmachine sessions with keys spread over producers in different ways, in two separately started OS processes',
-    'level_text': 'recorded behaviour judged by a TLA+ specification; exhaustive over the value range for int8/uint8/int16/uint16/bool keys (partitioner level in quick, also end to end in thorough), boundary + random samples for the other 11 registered key types and for multi-column prefixes; shard counts 1..16; every key universe is observed through several frame layouts/offsets/chunk sizes, several producer assignments, both executors, with and without machine combiners, and in two processes, and TLC requires a single function of (key, shard count) to explain all of it; Repartition must place rows where its function says, also when the same slice feeds a differently partitioned consumer in the same invocation',
+    'level_text': 'recorded behaviour judged by a TLA+ specification; exhaustive over the value range for int8/uint8/int16/uint16/bool keys (partitioner level in quick, also end to end in thorough), boundary + random samples for the other 11 registered key types and for multi-column prefixes; shard counts 1..16; every key universe is observed through several frame layouts/offsets/chunk sizes, several producer assignments, both executors, with and without machine combiners, and in two processes, and TLC requires a single function of (key, shard count) to explain all of it; Repartition must place rows where its function says, also when the same slice feeds a differently partitioned consumer in the same invocation; consumers whose key prefix is narrower than their source\'s (directly and with the source reused as the Result of an earlier invocation) and Repartition behind eight producer tasks running concurrently in one process',
     'level_note': 'keys of wide types are sampled; the engine partitions only whole frames today, so non-zero view offsets are exercised at the partitioner level (defaultPartitioner on Frame.Slice views), not end to end; machines are in-process testsystem machines, the two processes run the same binary',
 }
 
